@@ -533,4 +533,503 @@ theorem lineOk_writeText (c : Ctx) (s : Str) (fold pre : Bool) (hcr : (13 : CU) 
     simp only [TEXT_CLOSE, List.cons_append, List.nil_append]
     exact ⟨this.1, by rw [this.2]; exact Nat.le_refl 1⟩
 
+/-! ### write_char -/
+
+theorem charFlags_off (a : Analysis) (hf : (Lemmas.WriterChar.charFlags a).1 = false) :
+    a.lengthFirst < LINE ∧ a.lengthMax ≤ LINE ∧
+    ((Lemmas.WriterChar.charFlags a).2 = true → a.lengthMax + PREFIX_LENGTH ≤ LINE) := by
+  unfold Lemmas.WriterChar.charFlags at hf ⊢
+  simp only at hf ⊢
+  split at hf
+  · cases hf
+  · rename_i hnp
+    simp only [Bool.or_eq_false_iff, decide_eq_false_iff_not, Nat.not_le, Nat.not_lt] at hf
+    refine ⟨hf.1.1.1, hf.1.1.2, ?_⟩
+    intro hp
+    simp only [hp, true_and, Nat.not_lt] at hnp
+    exact hnp
+
+open CifModel.Spec.TextProtocol (joinLines) in
+theorem triple_conditions (s : Str) (unq tri : Bool) (h13 : (13 : CU) ∉ s)
+    (hcond : if (counters s).numLines = 1 then (counters s).maxLine + 6 ≤ LINE
+       else (counters s).firstLine + 3 < LINE ∧ (counters s).thisLine + 3 < LINE ∧ (counters s).maxLine ≤ LINE) :
+    ((splitLines s).headD []).length + 3 ≤ LINE ∧ ((splitLines s).getLastD []).length + 3 ≤ LINE ∧
+    (∀ l ∈ splitLines s, l.length ≤ LINE) ∧ ((splitLines s).tail = [] → s.length + 6 ≤ LINE) := by
+  obtain ⟨hF, hL, hAll, hN, _⟩ := analysis_lines s unq tri h13
+  have e1 : (analyze s unq tri LINE).lengthFirst = (counters s).firstLine := rfl
+  have e2 : (analyze s unq tri LINE).lengthLast = (counters s).thisLine := rfl
+  have e3 : (analyze s unq tri LINE).lengthMax = (counters s).maxLine := rfl
+  have e4 : (analyze s unq tri LINE).numLines = (counters s).numLines := rfl
+  have hsp := Lemmas.WriterText.splitLines_spec s
+  have hne := Lemmas.WriterText.splitLines_ne_nil s
+  rw [e1] at hF; rw [e2] at hL; rw [e3] at hAll; rw [e4] at hN
+  cases hs : splitLines s with
+  | nil => exact absurd hs hne
+  | cons l0 rest =>
+    rw [hs] at hF hL hAll hN hsp
+    cases rest with
+    | nil =>
+      have hj : l0 = s := by simpa [joinLines] using hsp.2
+      have hn1 : (counters s).numLines = 1 := by rw [hN]; rfl
+      simp only [hn1, ↓reduceIte] at hcond
+      have hl0 := hAll l0 List.mem_cons_self
+      simp only [List.headD_cons, List.getLastD_cons, List.getLastD_nil, List.tail_cons]
+      refine ⟨by omega, by omega, ?_, ?_⟩
+      · intro l hl; simp at hl; subst hl; omega
+      · intro _; rw [← hj]; omega
+    | cons l1 r =>
+      have hn1 : ¬ (counters s).numLines = 1 := by rw [hN]; simp
+      simp only [hn1, ↓reduceIte] at hcond
+      simp only [List.headD_cons] at hF ⊢
+      refine ⟨by omega, by omega, ?_, ?_⟩
+      · intro l hl; have := hAll l hl; omega
+      · intro h; simp at h
+
+/-- `write_char` keeps the column invariant — for every string without NUL and CR, every quoted flag, with or without
+    permission to write a text field, in both output versions -/
+theorem lineOk_writeChar (c : Ctx) (s : Str) (q allowText : Bool) (h0 : (0 : CU) ∉ s) (h13 : (13 : CU) ∉ s) :
+    LineOk c (writeChar c s q allowText) := by
+  by_cases hv : c.isCif1 = true ∧ validate11 s = false
+  · rw [Lemmas.WriterChar.writeChar_invalid c s q allowText hv]; exact lineOk_error _ _
+  obtain ⟨hdel, hlen⟩ := Lemmas.WriterChar.analyze_delim s (!q) (!c.isCif1) LINE
+  have hadm := C18_delim_admissible s (!q) (!c.isCif1) LINE h0
+  obtain ⟨hF, hL, hAll, hN, hLen⟩ := analysis_lines s (!q) (!c.isCif1) h13
+  have hmaxf : (analyze s (!q) (!c.isCif1) LINE).lengthMax = (counters s).maxLine := rfl
+  have hsp := Lemmas.WriterText.splitLines_spec s
+  cases hrec : recommend s (!q) (!c.isCif1) LINE with
+  | none =>
+    have hd0 : (analyze s (!q) (!c.isCif1) LINE).delimLength = 0 := by rw [hlen, hrec]; rfl
+    rw [Lemmas.WriterChar.writeChar_delim0 c s q allowText hv hd0]
+    obtain ⟨_, _, _, _, _, _, hn, hm⟩ := hadm.1 hrec
+    obtain ⟨hno, hmax, _⟩ := Lemmas.WriterLex.one_line s (!q) (!c.isCif1) LINE hn
+    rw [hmax]
+    exact lineOk_writeUnquoted c s (fun h => (hno 10 h).1 rfl) (by rw [← hmax, hmaxf]; exact hm)
+  | apos =>
+    have hd1 : (analyze s (!q) (!c.isCif1) LINE).delimLength = 1 := by rw [hlen, hrec]; rfl
+    rw [Lemmas.WriterChar.writeChar_delim1 c s q allowText hv hd1]
+    obtain ⟨_, hn, hm⟩ := hadm.2.1 hrec
+    obtain ⟨hno, hmax, hl⟩ := Lemmas.WriterLex.one_line s (!q) (!c.isCif1) LINE hn
+    rw [hl, hdel, hrec]
+    exact lineOk_writeQuoted c s _ (by decide) (fun h => (hno 10 h).1 rfl) (by rw [← hmax, hmaxf]; exact hm)
+  | quot =>
+    have hd1 : (analyze s (!q) (!c.isCif1) LINE).delimLength = 1 := by rw [hlen, hrec]; rfl
+    rw [Lemmas.WriterChar.writeChar_delim1 c s q allowText hv hd1]
+    obtain ⟨_, hn, hm⟩ := hadm.2.2.1 hrec
+    obtain ⟨hno, hmax, hl⟩ := Lemmas.WriterLex.one_line s (!q) (!c.isCif1) LINE hn
+    rw [hl, hdel, hrec]
+    exact lineOk_writeQuoted c s _ (by decide) (fun h => (hno 10 h).1 rfl) (by rw [← hmax, hmaxf]; exact hm)
+  | text =>
+    have hd2 : (analyze s (!q) (!c.isCif1) LINE).delimLength = 2 := by rw [hlen, hrec]; rfl
+    by_cases hr : allowText = false ∨ ((analyze s (!q) (!c.isCif1) LINE).containsTextDelim = true ∧ c.isCif1 = true)
+    · rw [Lemmas.WriterChar.writeChar_delim2_refused c s q allowText hv hd2 hr]; exact lineOk_error _ _
+    · rw [Lemmas.WriterChar.writeChar_delim2 c s q allowText hv hd2 hr]
+      have hflags := C02_flags_semis s _ (Lemmas.WriterAnalysis.maxSemiRun_zero s (!q) (!c.isCif1) LINE)
+      apply lineOk_writeText c s _ _ h13 hflags
+      by_cases hf : (Lemmas.WriterChar.charFlags (analyze s (!q) (!c.isCif1) LINE)).1 = true
+      · left; exact hf
+      · right
+        obtain ⟨o1, o2, o3⟩ := charFlags_off _ (by simpa using hf)
+        constructor
+        · intro l hl
+          have := hAll l hl
+          cases hp : (Lemmas.WriterChar.charFlags (analyze s (!q) (!c.isCif1) LINE)).2
+          · simp [Lemmas.WriterLexFits.pfxLen]; omega
+          · have := o3 hp
+            simp [Lemmas.WriterLexFits.pfxLen, PREFIX_LENGTH] at *; omega
+        · rw [← hF]; omega
+  | apos3 =>
+    have hd3 : (analyze s (!q) (!c.isCif1) LINE).delimLength = 3 := by rw [hlen, hrec]; rfl
+    rw [Lemmas.WriterChar.writeChar_delim3 c s q allowText hv hd3, hdel, hrec, hF, hL]
+    obtain ⟨_, hcond⟩ := hadm.2.2.2.1 hrec
+    obtain ⟨t1, t2, t3, t4⟩ := triple_conditions s (!q) (!c.isCif1) h13 hcond
+    exact lineOk_writeTriple c s _ (by decide) t1 t2 t3 t4
+  | quot3 =>
+    have hd3 : (analyze s (!q) (!c.isCif1) LINE).delimLength = 3 := by rw [hlen, hrec]; rfl
+    rw [Lemmas.WriterChar.writeChar_delim3 c s q allowText hv hd3, hdel, hrec, hF, hL]
+    obtain ⟨_, hcond⟩ := hadm.2.2.2.2 hrec
+    obtain ⟨t1, t2, t3, t4⟩ := triple_conditions s (!q) (!c.isCif1) h13 hcond
+    exact lineOk_writeTriple c s _ (by decide) t1 t2 t3 t4
+
+/-! ### numbers, names, items -/
+
+theorem lineOk_congr {c c2 : Ctx} {r : W} (h : c2.lastColumn = c.lastColumn) (hl : LineOk c r) : LineOk c2 r := by
+  intro hc o c' he
+  obtain ⟨h1, h2⟩ := hl (by omega) o c' he
+  exact ⟨h1, fun k hk => h2 k (by omega)⟩
+
+/-- a string the writer can handle: no NUL, no CR -/
+def strOk (s : Str) : Prop := (0 : CU) ∉ s ∧ (13 : CU) ∉ s
+
+/-- a number text: additionally one line of at most 2048 BMP units (true of every number the API parses or formats,
+    apart from the length — open finding F-number-overlong) -/
+def numbOk (t : Str) : Prop := strOk t ∧ (10 : CU) ∉ t ∧ t.length ≤ LINE ∧ countChar32 t = t.length
+
+/-- a data name: one line of at most 2048 units -/
+def nameL (n : Str) : Prop := (10 : CU) ∉ n ∧ n.length ≤ LINE
+
+theorem lineOk_writeNumb (c : Ctx) (t : Str) (q : Bool) (ht : numbOk t) : LineOk c (writeNumb c t q) := by
+  unfold writeNumb
+  cases q with
+  | true => exact lineOk_writeChar c t true true ht.1.1 ht.1.2
+  | false =>
+    simp only [Bool.false_eq_true, ↓reduceIte]
+    have L := lineOk_uliteral c t none true ht.2.1 ht.2.2.1 (Or.inl rfl) (fun _ => ht.2.2.2)
+    cases hw : writeULiteral c t none true with
+    | none => exact lineOk_error _ _
+    | some r =>
+      obtain ⟨o, c'⟩ := r
+      simp only [hw] at L ⊢
+      split
+      · exact lineOk_error _ _
+      · exact L
+
+/-- the data name, printed at the beginning of a line -/
+theorem lineOk_name_col0 (c : Ctx) (n : Str) (hn : nameL n) (h0 : c.lastColumn = 0) :
+    LineOk c (match writeULiteral c n none false with | none => .error ErrCodes.CIF_ERROR | some r => .ok r) := by
+  have hp : printfS n.length n = n := by simp [printfS]
+  unfold writeULiteral
+  simp only [hp, h0, Nat.add_zero, Nat.zero_add]
+  by_cases hz : countChar32 n = 0
+  · rw [if_pos hz]; exact lineOk_nop c
+  · rw [if_neg hz]
+    by_cases h1 : countChar32 n > LINE
+    · rw [if_pos h1]; simp only [Bool.false_eq_true, ↓reduceIte]; exact lineOk_error _ _
+    · rw [if_neg h1]
+      exact lineOk_plain c n _ hn.1 (by simp [h0]) (by rw [h0]; simpa using hn.2)
+
+theorem lineOk_writeItemHead (c : Ctx) (n : Str) (hn : c.writeItemNames = true → nameL n) : LineOk c (writeItemHead c n) := by
+  unfold writeItemHead
+  apply lineOk_andThen
+  · cases hw : c.writeItemNames with
+    | false => simp only [Bool.false_eq_true, ↓reduceIte]; exact lineOk_nop c
+    | true =>
+      have hnm := hn hw
+      simp only [↓reduceIte]
+      split
+      · exact lineOk_error _ _
+      · intro hc o c' he
+        by_cases hcol : c.lastColumn > 0
+        · simp only [hcol, ↓reduceIte, writeNewline] at he
+          have L := lineOk_name_col0 { c with lastColumn := 0 } n hnm rfl
+          cases hu : writeULiteral { c with lastColumn := 0 } n none false with
+          | none => simp [hu] at he
+          | some r =>
+            obtain ⟨o2, c2⟩ := r
+            simp only [hu] at he L
+            split at he
+            · cases he
+            · simp only [Except.ok.injEq, Prod.mk.injEq] at he
+              obtain ⟨l1, l2⟩ := L (by simp) o2 c2 rfl
+              rw [← he.1, ← he.2]
+              refine ⟨l1, ?_⟩
+              intro k hk
+              obtain ⟨f, e⟩ := l2 0 (Nat.le_refl _)
+              simp only [List.cons_append, List.nil_append, fitsU, endCol, ↓reduceIte, f, Bool.and_true, decide_eq_true_eq]
+              exact ⟨by omega, e⟩
+        · have h0 : c.lastColumn = 0 := by omega
+          simp only [hcol, ↓reduceIte] at he
+          have L := lineOk_name_col0 c n hnm h0
+          cases hu : writeULiteral c n none false with
+          | none => simp [hu] at he
+          | some r =>
+            obtain ⟨o2, c2⟩ := r
+            simp only [hu] at he L
+            split at he
+            · cases he
+            · simp only [List.nil_append, Except.ok.injEq, Prod.mk.injEq] at he
+              rw [← he.1, ← he.2]
+              exact L hc o2 c2 rfl
+  · intro c1
+    split
+    · exact lineOk_ensureSpaced c1
+    · exact lineOk_nop c1
+
+/-! ### values -/
+
+mutual
+  /-- the strings of a value are free of NUL and CR, its numbers are one line of at most 2048 units -/
+  def valueL : V → Prop
+    | .chr _ t => strOk t
+    | .numb _ t _ _ _ _ => numbOk t
+    | .lst vs => elemsL vs
+    | .tbl es => entriesL es
+    | _ => True
+  def elemsL : List V → Prop
+    | [] => True
+    | v :: r => valueL v ∧ elemsL r
+  def entriesL : List (Str × Str × V) → Prop
+    | [] => True
+    | (_, key, v) :: r => strOk key ∧ valueL v ∧ entriesL r
+end
+
+theorem nameL_nil : nameL [] := ⟨by simp, by simp⟩
+
+theorem lineOk_andThen_ok {c c1 : Ctx} {o : Str} {f : Ctx → W} (ha : LineOk c (.ok (o, c1))) (hf : LineOk c1 (f c1)) :
+    LineOk c (andThen (.ok (o, c1)) f) := by
+  have := lineOk_andThen (c := c) (a := .ok (o, c1)) (f := fun cx => if cx = c1 then f c1 else .error 0) ha
+    (fun cx => by
+      by_cases e : cx = c1
+      · subst e; simpa using hf
+      · simp only [e, ↓reduceIte]; exact lineOk_error _ _)
+  simpa [andThen] using this
+
+theorem lineOk_seq {c c0 c2 : Ctx} {o0 o1 : Str} (h0 : LineOk c (.ok (o0, c0))) (h1 : LineOk c0 (.ok (o1, c2))) :
+    LineOk c (.ok (o0 ++ o1, c2)) := by
+  have := lineOk_andThen (c := c) (a := .ok (o0, c0)) (f := fun cx => if cx = c0 then .ok (o1, c2) else .error 0) h0
+    (fun cx => by
+      by_cases e : cx = c0
+      · subst e; simpa using h1
+      · simp only [e, ↓reduceIte]; exact lineOk_error _ _)
+  simpa [andThen] using this
+
+mutual
+  theorem lineOk_item (n : Str) (v : V) (c : Ctx) (hn : c.writeItemNames = true → nameL n) (hv : valueL v) :
+      LineOk c (writeItem n v c) := by
+    unfold writeItem
+    apply lineOk_andThen (lineOk_writeItemHead c n hn)
+    intro c1
+    match v, hv with
+    | .chr q t, hv => exact lineOk_writeChar c1 t q true hv.1 hv.2
+    | .numb q t _ _ _ _, hv => exact lineOk_writeNumb c1 t q hv
+    | .na, _ => exact lineOk_literalOrError c1 _ _ (by decide) (by decide)
+    | .unk, _ => exact lineOk_literalOrError c1 _ _ (by decide) (by decide)
+    | .lst vs, hv =>
+      simp only
+      split
+      · exact lineOk_error _ _
+      · apply lineOk_andThen (lineOk_literalOrError c1 _ _ (by decide) (by decide))
+        intro c2
+        have hE : LineOk c2 (writeElems vs { c2 with writeItemNames := false, separateValues := true }) :=
+          lineOk_congr (c := { c2 with writeItemNames := false, separateValues := true }) rfl
+            (lineOk_elems vs _ (by simpa [valueL] using hv))
+        apply lineOk_andThen hE
+        intro c3
+        apply lineOk_andThen (lineOk_literalOrError c3 _ _ (by decide) (by decide))
+        intro c4
+        exact lineOk_congr (c := { c4 with separateValues := c2.separateValues, writeItemNames := c2.writeItemNames })
+          rfl (lineOk_nop _)
+    | .tbl es, hv =>
+      simp only
+      split
+      · exact lineOk_error _ _
+      · apply lineOk_andThen (lineOk_literalOrError c1 _ _ (by decide) (by decide))
+        intro c2
+        have hE : LineOk c2 (writeEntries es { c2 with writeItemNames := false }) :=
+          lineOk_congr (c := { c2 with writeItemNames := false }) rfl (lineOk_entries es _ (by simpa [valueL] using hv))
+        apply lineOk_andThen hE
+        intro c3
+        apply lineOk_andThen (lineOk_literalOrError c3 _ _ (by decide) (by decide))
+        intro c4
+        exact lineOk_congr (c := { c4 with separateValues := c2.separateValues, writeItemNames := c2.writeItemNames })
+          rfl (lineOk_nop _)
+  theorem lineOk_elems (vs : List V) (c : Ctx) (hv : elemsL vs) : LineOk c (writeElems vs c) := by
+    match vs, hv with
+    | [], _ => unfold writeElems; exact lineOk_nop c
+    | v :: rest, hv =>
+      unfold writeElems
+      simp only [elemsL] at hv
+      apply lineOk_andThen (lineOk_item [] v c (fun _ => nameL_nil) hv.1)
+      intro c1
+      exact lineOk_elems rest c1 hv.2
+  theorem lineOk_entries (es : List (Str × Str × V)) (c : Ctx) (hv : entriesL es) : LineOk c (writeEntries es c) := by
+    match es, hv with
+    | [], _ => unfold writeEntries; exact lineOk_nop c
+    | (kn, key, v) :: rest, hv =>
+      unfold writeEntries
+      simp only [entriesL] at hv
+      -- optional line break and separator
+      have h0 : LineOk c (.ok (if (key.length : Int) > (LINE : Int) - (c.lastColumn + 8) then writeNewline c else ([], c))) := by
+        split
+        · exact lineOk_newline c
+        · exact lineOk_nop c
+      generalize (if (key.length : Int) > (LINE : Int) - (c.lastColumn + 8) then writeNewline c else ([], c)) = p0 at h0
+      obtain ⟨o0, c0⟩ := p0
+      simp only
+      have h1 : LineOk c0 (.ok (ensureSpaced { c0 with separateValues := false })) :=
+        lineOk_congr (c := { c0 with separateValues := false }) rfl (lineOk_ensureSpaced _)
+      generalize ensureSpaced { c0 with separateValues := false } = p1 at h1
+      obtain ⟨o1, c2⟩ := p1
+      simp only
+      apply lineOk_andThen (lineOk_seq h0 h1)
+      intro c2
+      apply lineOk_andThen (lineOk_writeChar c2 key true false hv.1.1 hv.1.2)
+      intro c3
+      apply lineOk_andThen (lineOk_literal c3 [58] false (by decide) (by decide) |> fun h => by
+        cases hl : writeLiteral c3 [58] false with
+        | none => exact lineOk_error _ _
+        | some r => simpa [hl] using h)
+      intro c4
+      apply lineOk_andThen (lineOk_item [] v c4 (fun _ => nameL_nil) hv.2.1)
+      intro c5
+      exact lineOk_entries rest c5 hv.2.2
+end
+
+/-! ### items, packets, loops, containers, the CIF -/
+
+/-- the items of a packet: values as above, names one line of at most 2048 units -/
+def itemsL (p : List (Str × V)) : Prop := ∀ nv ∈ p, valueL nv.2 ∧ nameL nv.1
+
+theorem lineOk_items : ∀ (p : List (Str × V)) (c : Ctx), itemsL p → LineOk c (writeItems p c) := by
+  intro p
+  induction p with
+  | nil => intro c _; exact lineOk_nop c
+  | cons nv rest ih =>
+    intro c h
+    obtain ⟨n, v⟩ := nv
+    simp only [writeItems]
+    have h1 := h (n, v) List.mem_cons_self
+    apply lineOk_andThen (lineOk_item n v c (fun _ => h1.2) h1.1)
+    intro c1
+    exact ih c1 (fun x hx => h x (List.mem_cons_of_mem _ hx))
+
+theorem lineOk_packets : ∀ (ps : List (List (Str × V))) (c : Ctx), (∀ p ∈ ps, itemsL p) → LineOk c (writePackets ps c) := by
+  intro ps
+  induction ps with
+  | nil => intro c _; exact lineOk_nop c
+  | cons p rest ih =>
+    intro c h
+    simp only [writePackets, writePacket]
+    apply lineOk_andThen
+    · apply lineOk_andThen (lineOk_items p c (h p List.mem_cons_self))
+      intro c1; exact lineOk_newline c1
+    · intro c1; exact ih c1 (fun x hx => h x (List.mem_cons_of_mem _ hx))
+
+/-- a name of a loop header fits its line, indented or not -/
+def headerL (n : Str) : Prop := (10 : CU) ∉ n ∧ n.length + (if countChar32 n < LINE then 1 else 0) ≤ LINE
+
+theorem lineOk_headerNames : ∀ (ns : List Str) (c : Ctx), c.lastColumn = 0 → (∀ n ∈ ns, headerL n) →
+    LineOk c (writeHeaderNames ns c) := by
+  intro ns
+  induction ns with
+  | nil => intro c _ _; exact lineOk_nop c
+  | cons n rest ih =>
+    intro c h0 h
+    have hn := h n List.mem_cons_self
+    simp only [writeHeaderNames]
+    split
+    · exact lineOk_error _ _
+    · apply lineOk_andThen_ok
+      · -- one header line, written from column 0
+        apply lineOk_of_track c _ _ (by simp)
+        intro _ k hk
+        have hk0 : k = 0 := by omega
+        subst hk0
+        have hno : (10 : CU) ∉ (if countChar32 n < LINE then [32] else []) ++ n := by
+          simp only [List.mem_append, not_or]
+          refine ⟨?_, hn.1⟩
+          split <;> simp
+        have hlen : ((if countChar32 n < LINE then [32] else []) ++ n).length ≤ LINE := by
+          have := hn.2
+          by_cases hc : countChar32 n < LINE
+          · simp only [hc, ↓reduceIte] at this ⊢; simp; omega
+          · simp only [hc, ↓reduceIte] at this ⊢; simpa using this
+        generalize (if countChar32 n < LINE then [32] else []) ++ n = t at hno hlen
+        obtain ⟨a1, a2⟩ := track_noeol t 0 hno
+        rw [fitsU_append, endCol_append, a1, a2]
+        simp only [fitsU, endCol, ↓reduceIte, Nat.zero_add, Bool.and_eq_true, decide_eq_true_eq, and_true]
+        exact ⟨⟨hlen, hlen, Nat.zero_le _⟩, Nat.le_refl _⟩
+      · exact ih _ rfl (fun x hx => h x (List.mem_cons_of_mem _ hx))
+
+/-- a loop: header names and items as above -/
+def loopL (l : WLoop) : Prop := (∀ n ∈ l.header, headerL n) ∧ ∀ p ∈ l.packets, itemsL p
+
+theorem lineOk_lit_lf (c : Ctx) (t : Str) (c' : Ctx) (ht : (10 : CU) ∉ t) (hlen : t.length ≤ LINE) (hc' : c'.lastColumn = 0) :
+    LineOk c (.ok (10 :: (t ++ [10]), c')) := by
+  apply lineOk_of_track c _ _ (by omega)
+  intro hc k hk
+  obtain ⟨a1, a2⟩ := track_noeol t 0 ht
+  simp only [fitsU, endCol, ↓reduceIte]
+  rw [fitsU_append, endCol_append, a1, a2]
+  simp only [fitsU, endCol, ↓reduceIte, Nat.zero_add, Bool.and_eq_true, decide_eq_true_eq, and_true]
+  exact ⟨⟨by omega, hlen, hlen, Nat.zero_le _⟩, by omega⟩
+
+theorem lineOk_loop (l : WLoop) (c : Ctx) (h : loopL l) : LineOk c (writeLoop l c) := by
+  unfold writeLoop
+  apply lineOk_andThen
+  · split
+    · have := lineOk_newline c
+      exact lineOk_congr (c := c) rfl (by
+        intro hc o c' he
+        simp only [writeNewline, Except.ok.injEq, Prod.mk.injEq] at he
+        obtain ⟨l1, l2⟩ := this hc [10] { c with lastColumn := 0 } rfl
+        rw [← he.1, ← he.2]
+        exact ⟨l1, l2⟩)
+    · apply lineOk_andThen_ok (c1 := { c with writeItemNames := false, lastColumn := 0 })
+      · have := lineOk_lit_lf c (a!"loop_") { c with writeItemNames := false, lastColumn := 0 } (by decide) (by decide) rfl
+        simpa [LOOP_HEAD] using this
+      · exact lineOk_headerNames l.header _ rfl h.1
+  · intro c1
+    split
+    · exact lineOk_error _ _
+    · apply lineOk_andThen (lineOk_packets l.packets c1 h.2)
+      intro c2; exact lineOk_newline c2
+
+theorem lineOk_loops : ∀ (ls : List WLoop) (c : Ctx), (∀ l ∈ ls, loopL l) → LineOk c (writeLoops ls c) := by
+  intro ls
+  induction ls with
+  | nil => intro c _; exact lineOk_nop c
+  | cons l rest ih =>
+    intro c h
+    simp only [writeLoops]
+    apply lineOk_andThen (lineOk_loop l c (h l List.mem_cons_self))
+    intro c1; exact ih c1 (fun x hx => h x (List.mem_cons_of_mem _ hx))
+
+/-- a block or frame code leaves room for `data_` / `save_` -/
+def codeL (code : Str) : Prop := (10 : CU) ∉ code ∧ code.length + 5 ≤ LINE
+
+mutual
+  def containerL : WContainer → Prop
+    | .mk code frames loops => codeL code ∧ containersL frames ∧ ∀ l ∈ loops, loopL l
+  def containersL : List WContainer → Prop
+    | [] => True
+    | k :: rest => containerL k ∧ containersL rest
+end
+
+mutual
+  theorem lineOk_container (k : WContainer) (c : Ctx) (h : containerL k) : LineOk c (writeContainer k c) := by
+    match k, h with
+    | .mk code frames loops, h =>
+      simp only [containerL] at h
+      unfold writeContainer
+      split
+      · exact lineOk_error _ _
+      · apply lineOk_andThen
+        · -- the header line
+          have hno : (10 : CU) ∉ (if c.depth = 0 then a!"data_" else a!"save_") ++ code := by
+            simp only [List.mem_append, not_or]
+            refine ⟨?_, h.1.1⟩
+            split <;> decide
+          have hlen : ((if c.depth = 0 then a!"data_" else a!"save_") ++ code).length ≤ LINE := by
+            have := h.1.2
+            split <;> simp <;> omega
+          have := lineOk_lit_lf c _ { c with lastColumn := 0, depth := c.depth + 1 } hno hlen rfl
+          have e : (if c.depth = 0 then BLOCK_HEAD else FRAME_HEAD) ++ code ++ [10]
+              = 10 :: ((if c.depth = 0 then a!"data_" else a!"save_") ++ code ++ [10]) := by
+            split <;> simp [BLOCK_HEAD, FRAME_HEAD]
+          rw [e]
+          exact this
+        · intro c1
+          apply lineOk_andThen (lineOk_containers frames c1 h.2.1)
+          intro c2
+          apply lineOk_andThen (lineOk_loops loops c2 h.2.2)
+          intro c3
+          simp only []
+          split
+          · apply lineOk_of_track c3 _ _ (by simp [writeNewline])
+            intro hc k hk
+            simp only [writeNewline, fitsU, endCol, ↓reduceIte, Bool.and_eq_true, decide_eq_true_eq]
+            exact ⟨⟨by omega, Nat.zero_le _⟩, Nat.le_refl _⟩
+          · have := lineOk_lit_lf c3 (a!"save_") { c3 with depth := c3.depth - 1, lastColumn := 0 } (by decide) (by decide) rfl
+            simpa [FRAME_END] using this
+  theorem lineOk_containers (ks : List WContainer) (c : Ctx) (h : containersL ks) : LineOk c (writeContainers ks c) := by
+    match ks, h with
+    | [], _ => unfold writeContainers; exact lineOk_nop c
+    | k :: rest, h =>
+      simp only [containersL] at h
+      unfold writeContainers
+      apply lineOk_andThen (lineOk_container k c h.1)
+      intro c1
+      exact lineOk_containers rest c1 h.2
+end
+
 end CifModel.Lemmas.WriterLines
